@@ -11,6 +11,7 @@ import (
 	"path"
 	"path/filepath"
 	"reflect"
+	"strings"
 
 	"github.com/akalin/gopar/rsec16"
 )
@@ -28,7 +29,26 @@ func (io defaultFileIO) ReadFile(path string) ([]byte, error) {
 }
 
 func (io defaultFileIO) FindWithPrefixAndSuffix(prefix, suffix string) ([]string, error) {
-	return filepath.Glob(prefix + "*" + suffix)
+	// Match the prefix and suffix literally: file names may
+	// contain characters that are special in glob patterns.
+	dir, namePrefix := filepath.Split(prefix)
+	readDir := dir
+	if readDir == "" {
+		readDir = "."
+	}
+	// ReadDir returns the entries sorted by name.
+	infos, err := ioutil.ReadDir(readDir)
+	if err != nil {
+		return nil, err
+	}
+	var matches []string
+	for _, info := range infos {
+		name := info.Name()
+		if len(name) >= len(namePrefix)+len(suffix) && strings.HasPrefix(name, namePrefix) && strings.HasSuffix(name, suffix) {
+			matches = append(matches, dir+name)
+		}
+	}
+	return matches, nil
 }
 
 func (io defaultFileIO) WriteFile(path string, data []byte) error {
